@@ -39,7 +39,7 @@ from flowjax.bijections.bijection import AbstractBijection
 import vlib
 
 ID = "C13"
-GEN = ["Structure", "ArgCheckGen", "CtorsGen", "WrapperGen"]
+GEN = ["Structure", "ArgCheckGen", "CtorsGen", "WrapperGen", "BnafInitGen"]
 RULE = ("(a) zoo of real instances of every concrete bijection class (incl. the private _CallableToBijection / "
         "_UnconditionalPlanar, conditional and unconditional variants, shapes with size-1 axes, random generated "
         "compositions) x {transform, transform_and_log_det, inverse, inverse_and_log_det} x x-shape lattice (all 40 shapes "
@@ -802,6 +802,9 @@ def run_dist(c, tier, rng):
 
 # ------------------------------------------------------------------ corr
 def corr(c, tier, rng):
+    # --- the GENERATED `BlockAutoregressiveNetwork.__init__` (Gen/BnafInitGen.lean): guard verdict / built shapes against real constructions
+    from props import bnafld
+    bnafld.corr_init(c, tier, rng)
     jobs = []
     objs = {}
     for name, mk in zoo().items():
